@@ -30,14 +30,26 @@ var caseSem = make(chan struct{}, 12)
 func runQuery(L *Loaded, asserts []*smt.Term, gets []*smt.Term, timeout, seed int) outcome {
 	X := L.Engine.X
 	scriptMu.Lock()
+	var weak *smt.Script
 	if os.Getenv("GOVC_NOHINTS") == "" {
-		asserts = append(append([]*smt.Term{}, asserts...), X.InstantiateHints(asserts, 6)...)
+		// The instances never enter the main script (they slow the solvers down on problems with many
+		// quantified hypotheses); they form a separate quantifier-free script raced beside it.
+		if smt.HasQuant(asserts...) {
+			extra, qfree := X.InstantiateHints(asserts, 4)
+			if len(extra) > 0 && len(extra) <= 80 {
+				weak = X.Script(append(append([]*smt.Term{}, qfree...), extra...), nil, "ALL", true)
+			}
+		}
 	}
 	sc := X.Script(asserts, gets, "ALL", true)
 	abs := X.ScriptAbstract(asserts)
 	scriptMu.Unlock()
+	if d := os.Getenv("GOVC_KEEPWEAK"); d != "" && weak != nil {
+		os.MkdirAll(d, 0o755)
+		os.WriteFile(fmt.Sprintf("%s/weak%d.smt2", d, time.Now().UnixNano()), []byte(weak.Text), 0o644)
+	}
 	solverSem <- struct{}{}
-	res, err := smt.SolveWithAbstraction(sc, abs, len(gets), timeout, seed, os.Getenv("GOVC_SOLVER"))
+	res, err := smt.SolveWithAbstraction(sc, abs, weak, len(gets), timeout, seed, os.Getenv("GOVC_SOLVER"))
 	<-solverSem
 	if err != nil {
 		return outcome{verdict: smt.Unknown, raw: err.Error(), solver: "error"}
